@@ -175,6 +175,16 @@ func GenOps(r *simrt.Rand, cfg *Config, pools *Pools, prof *Profile) []Op {
 		op := g.genOp(k)
 		op.Seed = r.Uint64()
 		ops = append(ops, op)
+		if op.K == "reopen" && !op.Flag && cfg.Async && r.Chance(1, 2) {
+			// the first call on the new handle loads the schema and queues a write (the
+			// caller identifies the object, so that no other call precedes the insertion),
+			// then the client goes silent: the write must be flushed all the same
+			ops[len(ops)-1].Mode = "quiet"
+			lid := g.fresh()
+			g.live = append(g.live, lid)
+			ops = append(ops, Op{K: "save", Lid: lid, Rec: g.rec(), Flag: true, Mode: "quiet", Seed: r.Uint64()},
+				Op{K: "await", Mode: "timeout", Seed: r.Uint64()})
+		}
 	}
 	return ops
 }
